@@ -633,12 +633,12 @@ public:
 					{
 						rapidjson::PrettyWriter<StringBuffer, TEncoding, rapidjson::UTF8<>> writer(buffer);
 						writer.SetIndent(options.formatOptions.paddingChar, options.formatOptions.paddingCharNum);
-						mRootJson.Accept(writer);
+						CheckWriteResult(mRootJson.Accept(writer));
 					}
 					else
 					{
 						rapidjson::Writer<StringBuffer, TEncoding, rapidjson::UTF8<>> writer(buffer);
-						mRootJson.Accept(writer);
+						CheckWriteResult(mRootJson.Accept(writer));
 					}
 					*arg = buffer.GetString();
 				}
@@ -651,12 +651,12 @@ public:
 					{
 						rapidjson::PrettyWriter<AutoOutputStream, TEncoding, rapidjson::AutoUTF<uint32_t>> writer(eos);
 						writer.SetIndent(options.formatOptions.paddingChar, options.formatOptions.paddingCharNum);
-						mRootJson.Accept(writer);
+						CheckWriteResult(mRootJson.Accept(writer));
 					}
 					else
 					{
 						rapidjson::Writer<AutoOutputStream, TEncoding, rapidjson::AutoUTF<uint32_t>> writer(eos);
-						mRootJson.Accept(writer);
+						CheckWriteResult(mRootJson.Accept(writer));
 					}
 				}
 			}, mOutput);
@@ -665,6 +665,14 @@ public:
 	}
 
 private:
+	static void CheckWriteResult(bool result)
+	{
+		if (!result) {
+			throw SerializationException(SerializationErrorCode::InputOutputError,
+				"Unable to write JSON, it contains a value that cannot be represented (NaN, infinity or invalid UTF sequence)");
+		}
+	}
+
 	static rapidjson::UTFType ToRapidUtfType(const Convert::Utf::UtfType utfType)
 	{
 		switch (utfType)
